@@ -316,7 +316,7 @@ Qed.
 (* ================================================================== order of children *)
 (* listed by display priority, ties by identity = creation = insertion order *)
 Definition hord_lt (a b : hdr) : Prop :=
-  (h_prio a < h_prio b)%Q \/ ((h_prio a == h_prio b)%Q /\ (h_id a < h_id b)%nat).
+  (h_prio a < h_prio b)%Q \/ ((h_prio a == h_prio b)%Q /\ (h_seq a < h_seq b)%nat).
 
 Definition key_ok (k : string) : Prop := k <> EmptyString /\ has_dot k = false.
 
@@ -419,7 +419,7 @@ Qed.
 (* a new object (identity above all present ones) lands so that the list stays
    sorted by (priority, identity) *)
 Lemma place_sorted : forall p ch,
-  StronglySorted hord_lt (map phdr ch) -> Forall (fun y => (pid y < pid p)%nat) ch ->
+  StronglySorted hord_lt (map phdr ch) -> Forall (fun y => (pseq y < pseq p)%nat) ch ->
   StronglySorted hord_lt (map phdr (place p ch)).
 Proof.
   induction ch as [|y r IH]; simpl; intros Hs Hid.
@@ -438,7 +438,7 @@ Proof.
 Qed.
 
 Lemma children_ok_place : forall p ch,
-  children_ok ch -> key_ok (pkey p) -> ~ In (pkey p) (map pkey ch) -> Forall (fun y => (pid y < pid p)%nat) ch ->
+  children_ok ch -> key_ok (pkey p) -> ~ In (pkey p) (map pkey ch) -> Forall (fun y => (pseq y < pseq p)%nat) ch ->
   children_ok (place p ch).
 Proof.
   unfold children_ok, hdrs_ok. intros p ch (Hnd & Hk & Hs) Hkp Hnin Hid.
@@ -537,18 +537,21 @@ Definition leaf_ok (p : param) : Prop :=
 (* well-formed tree, all identities below n *)
 Inductive wf (n : nat) : param -> Prop :=
 | wf_leaf : forall h ro c d v,
-    (h_id h < n)%nat -> valid_for c d = true -> valid_for c v = true -> wf n (Leaf h ro c d v)
+    (h_id h < n)%nat -> (h_seq h < n)%nat -> valid_for c d = true -> valid_for c v = true -> wf n (Leaf h ro c d v)
 | wf_map : forall h ch,
-    (h_id h < n)%nat -> Forall (wf n) ch -> children_ok ch -> wf n (Map h ch).
+    (h_id h < n)%nat -> (h_seq h < n)%nat -> Forall (wf n) ch -> children_ok ch -> wf n (Map h ch).
 
 Lemma wf_id : forall n p, wf n p -> (pid p < n)%nat.
+Proof. intros n p H. inversion H; subst; assumption. Qed.
+
+Lemma wf_seq : forall n p, wf n p -> (pseq p < n)%nat.
 Proof. intros n p H. inversion H; subst; assumption. Qed.
 
 Lemma wf_mono : forall n m p, (n <= m)%nat -> wf n p -> wf m p.
 Proof.
   intros n m p Hle. induction p as [h ro c d v|h ch IH] using param_ind'; intros H; inversion H; subst.
   - constructor; auto; lia.
-  - constructor; auto; [lia|].
+  - constructor; auto; try lia.
     rewrite Forall_forall in *. auto.
 Qed.
 
@@ -574,11 +577,11 @@ Proof.
   - destruct p as [h ro c d v|h ch]; [discriminate|].
     destruct (find_child k ch) as [c|] eqn:Ec; [|discriminate].
     destruct (modify r f c) as [c'|e] eqn:Em; [|discriminate].
-    inversion H; subst. inversion Hwf as [|? ? Hid Hch Hok]; subst.
+    inversion H; subst. inversion Hwf as [|? ? Hid Hsq Hch Hok]; subst.
     assert (Hc : wf n c) by (rewrite Forall_forall in Hch; apply Hch; eapply find_child_in; eauto).
     destruct (IH c c' Hle Hc Hf Em) as [Hc' Hh].
     split; [|reflexivity].
-    constructor; [lia | | eapply children_ok_replace; eauto].
+    constructor; [lia | lia | | eapply children_ok_replace; eauto].
     apply Forall_replace_child; [|exact Hc'].
     eapply Forall_impl; [|exact Hch]. intros; eapply wf_mono; eauto.
 Qed.
@@ -658,16 +661,16 @@ Proof.
   intros n segs. induction segs as [|k r IH]; intros p p' x Hwf H; simpl in H; [discriminate|].
   destruct p as [|h ch]; [discriminate|].
   destruct (find_child k ch) as [c|] eqn:Ec; [|discriminate].
-  inversion Hwf as [|? ? Hid Hch Hok]; subst.
+  inversion Hwf as [|? ? Hid Hsq Hch Hok]; subst.
   assert (Hc : wf n c) by (rewrite Forall_forall in Hch; apply Hch; eapply find_child_in; eauto).
   destruct r as [|k2 r2].
   - inversion H; subst. repeat split; auto.
-    constructor; [exact Hid | apply Forall_remove_child, Hch | apply children_ok_remove, Hok].
+    constructor; [exact Hid | exact Hsq | apply Forall_remove_child, Hch | apply children_ok_remove, Hok].
   - destruct (remove_at (k2 :: r2) c) as [[c' y]|] eqn:Er; [|discriminate].
     inversion H; subst.
     destruct (IH _ _ _ Hc Er) as (Hc' & Hh & Hx).
     repeat split; auto.
-    constructor; [exact Hid | apply Forall_replace_child; assumption | eapply children_ok_replace; eauto].
+    constructor; [exact Hid | exact Hsq | apply Forall_replace_child; assumption | eapply children_ok_replace; eauto].
 Qed.
 
 Lemma remove_at_leaves : forall segs p p' x L,
@@ -748,33 +751,47 @@ Lemma node_of_wf : forall id s, leaf_ok (node_of id s) -> wf (S id) (node_of id 
 Proof.
   intros id s H. unfold node_of in *. destruct (s_kind s); simpl in *;
     try (destruct H; constructor; simpl; auto; fail).
-  constructor; simpl; [lia | constructor | apply children_ok_nil].
+  constructor; simpl; [lia | lia | constructor | apply children_ok_nil].
+Qed.
+
+Lemma node_of_seq : forall id s, pseq (node_of id s) = id.
+Proof. intros. unfold pseq. rewrite node_of_hdr. reflexivity. Qed.
+
+(* adding any well-formed object that is stamped with the current operation *)
+Lemma map_add_wf_gen : forall n p x x',
+  wf n x -> wf (S n) p -> key_ok (pkey p) -> pseq p = n ->
+  map_add p x = Val x' -> wf (S n) x' /\ phdr x' = phdr x.
+Proof.
+  intros n p x x' Hwf Hp Hk Hsn H. destruct x as [|h ch]; simpl in H; [discriminate|].
+  destruct (has_key (pkey p) ch) eqn:Eh; [discriminate|].
+  inversion H; subst. inversion Hwf as [|? ? Hid Hsq Hch Hok]; subst.
+  split; [|reflexivity].
+  assert (Hs : StronglySorted prio_le ch) by (apply sorted_hord_prio; apply Hok).
+  rewrite py_sorted_append by exact Hs.
+  constructor; [lia | lia | |].
+  - apply place_Forall; [exact Hp|].
+    eapply Forall_impl; [|exact Hch]. intros y Hy. eapply wf_mono; [|exact Hy]. lia.
+  - apply children_ok_place; auto.
+    + apply has_key_false, Eh.
+    + eapply Forall_impl; [|exact Hch]. intros y Hy. apply wf_seq, Hy.
 Qed.
 
 Lemma map_add_wf : forall n s x x',
   wf n x -> key_ok (s_key s) -> leaf_ok (node_of n s) ->
   map_add (node_of n s) x = Val x' -> wf (S n) x' /\ phdr x' = phdr x.
 Proof.
-  intros n s x x' Hwf Hk Hl H. destruct x as [|h ch]; simpl in H; [discriminate|].
-  destruct (has_key (pkey (node_of n s)) ch) eqn:Eh; [discriminate|].
-  inversion H; subst. inversion Hwf as [|? ? Hid Hch Hok]; subst.
-  split; [|reflexivity].
-  assert (Hs : StronglySorted prio_le ch) by (apply sorted_hord_prio; apply Hok).
-  rewrite py_sorted_append by exact Hs.
-  constructor; [lia | |].
-  - apply place_Forall; [apply node_of_wf, Hl|].
-    eapply Forall_impl; [|exact Hch]. intros y Hy. eapply wf_mono; [|exact Hy]. lia.
-  - apply children_ok_place; auto.
-    + rewrite node_of_key. exact Hk.
-    + apply has_key_false, Eh.
-    + rewrite node_of_id. eapply Forall_impl; [|exact Hch]. intros y Hy. apply wf_id, Hy.
+  intros n s x x' Hwf Hk Hl H. eapply map_add_wf_gen; eauto.
+  - apply node_of_wf, Hl.
+  - rewrite node_of_key. exact Hk.
+  - apply node_of_seq.
 Qed.
 
-Lemma step_root_wf : forall n root o, wf n root -> wf (S n) (fst (step_root repaired n root o)).
+Lemma step_root_wf_hdr : forall n root o, wf n root ->
+  wf (S n) (fst (step_root repaired n root o)) /\ phdr (fst (step_root repaired n root o)) = phdr root.
 Proof.
   intros n root o Hwf.
-  assert (Hm : wf (S n) root) by (eapply wf_mono; [|exact Hwf]; lia).
-  destruct o as [path v|pp s|pp s|path|path|path v|path|src dst|path]; simpl.
+  assert (Hm : wf (S n) root /\ phdr root = phdr root) by (split; [eapply wf_mono; [|exact Hwf]; lia | reflexivity]).
+  destruct o as [path v|pp s|pp s|path|path|path v|path|src dst|path|s|i o'|i dst]; simpl.
   - destruct (modify (segments path) (set_value repaired v) root) as [r'|e] eqn:E; simpl; [|exact Hm].
     eapply modify_wf in E; [apply E | | exact Hwf |]; [lia|].
     intros x x' Hx Hs. eapply set_value_wf; [|exact Hx|exact Hs]. lia.
@@ -795,7 +812,8 @@ Proof.
     + eapply base_checks_key_ok, Hb.
     + apply default_checks_leaf_ok, Hd.
   - destruct (remove_at (segments path) root) as [[r' x]|e] eqn:E; simpl; [|exact Hm].
-    eapply remove_at_wf in E; [|exact Hwf]. eapply wf_mono; [|apply E]. lia.
+    eapply remove_at_wf in E; [|exact Hwf]. destruct E as (E1 & E2 & _). split; [|exact E2].
+    eapply wf_mono; [|exact E1]. lia.
   - destruct (get root path) as [p|e]; simpl; exact Hm.
   - destruct (modify (segments path) (set_value repaired v) root) as [r'|e] eqn:E; simpl; [|exact Hm].
     eapply modify_wf in E; [apply E | | exact Hwf |]; [lia|].
@@ -805,54 +823,22 @@ Proof.
     destruct (node_at root (psegs dst)) as [par|]; simpl; [|exact Hm].
     destruct (map_add p par); simpl; exact Hm.
   - destruct (get root path) as [[? ? ? ? ?|? ?]|e]; simpl; exact Hm.
+  - exact Hm.
+  - exact Hm.
+  - exact Hm.
 Qed.
 
-Definition wf_state (st : state) : Prop := wf (st_next st) (st_root st).
-
-Lemma step_wf : forall st o, wf_state st -> wf_state (fst (step repaired st o)).
-Proof.
-  unfold wf_state, step. intros st o H. rewrite step_root_lit_eq.
-  pose proof (step_root_wf (st_next st) (st_root st) o H) as H'.
-  destruct (step_root repaired (st_next st) (st_root st) o) as [r' out]. simpl in *. exact H'.
-Qed.
-
-Lemma run_wf : forall ops st, wf_state st -> wf_state (run repaired st ops).
-Proof. induction ops as [|o r IH]; simpl; intros st H; [exact H | apply IH, step_wf, H]. Qed.
-
-Lemma init_wf : wf_state init.
-Proof. unfold wf_state, init. simpl. constructor; simpl; [lia | constructor | apply children_ok_nil]. Qed.
-
-(* T1: after every sequence of operations the tree is well-formed; in
-   particular every parameter holds a value (and a default) that is valid for
-   its declared type / bounds / options / quantity type. *)
-Theorem value_always_valid : forall ops p,
-  In p (nodes (st_root (run repaired init ops))) -> leaf_ok p.
-Proof.
-  intros ops p Hin. eapply wf_leaf_ok, wf_nodes; [|exact Hin]. apply (run_wf ops init init_wf).
-Qed.
-
-Theorem value_always_valid_from : forall st ops p,
-  wf_state st -> In p (nodes (st_root (run repaired st ops))) -> leaf_ok p.
-Proof.
-  intros st ops p Hwf Hin. eapply wf_leaf_ok, wf_nodes; [|exact Hin]. apply (run_wf ops st Hwf).
-Qed.
+Lemma step_root_wf : forall n root o, wf n root -> wf (S n) (fst (step_root repaired n root o)).
+Proof. intros. apply step_root_wf_hdr. assumption. Qed.
 
 (* ================================================================== T2: a rejected attempt changes nothing *)
 Theorem rejected_unchanged_root : forall n root o e,
   snd (step_root repaired n root o) = ORaise e -> fst (step_root repaired n root o) = root.
 Proof.
-  intros n root o e. destruct o as [path v|pp s|pp s|path|path|path v|path|src dst|path]; simpl;
+  intros n root o e. destruct o as [path v|pp s|pp s|path|path|path v|path|src dst|path|s|i o'|i dst]; simpl;
     repeat match goal with
            | |- context [match ?x with _ => _ end] => destruct x eqn:?; simpl
            end; intros H; try discriminate H; reflexivity.
-Qed.
-
-Theorem rejected_unchanged : forall st o e,
-  snd (step repaired st o) = ORaise e -> st_root (fst (step repaired st o)) = st_root st.
-Proof.
-  intros st o e. unfold step. rewrite step_root_lit_eq.
-  pose proof (rejected_unchanged_root (st_next st) (st_root st) o e) as H.
-  destruct (step_root repaired (st_next st) (st_root st) o) as [r' out]. simpl in *. exact H.
 Qed.
 
 (* an invalid value, or any value for a read-only parameter, IS rejected; a
@@ -923,7 +909,7 @@ Proof.
     - apply Hold. eapply nodes_trans; eauto.
     - right. rewrite node_of_nodes in Hs. destruct Hs as [Hs|[]].
       unfold node_of in Hs. destruct (s_kind s); inversion Hs; subst; auto. }
-  destruct o as [path v|pp s|pp s|path|path|path v|path|src dst|path]; simpl in Hin.
+  destruct o as [path v|pp s|pp s|path|path|path v|path|src dst|path|s|i o'|i dst]; simpl in Hin.
   - destruct (modify (segments path) (set_value repaired v) root) as [r'|e] eqn:E; simpl in Hin; eauto.
   - destruct (node_at root (psegs pp)) as [par|]; simpl in Hin; auto.
     destruct (ctor_checks repaired s (Some par)); simpl in Hin; auto.
@@ -940,73 +926,9 @@ Proof.
     destruct (node_at root (psegs dst)) as [par|]; simpl in Hin; auto.
     destruct (map_add p par); simpl in Hin; auto.
   - destruct (get root path) as [[? ? ? ? ?|? ?]|e]; simpl in Hin; auto.
-Qed.
-
-Lemma step_root_eq : forall st o, st_root (fst (step repaired st o)) = fst (step_root repaired (st_next st) (st_root st) o).
-Proof. intros. unfold step. rewrite step_root_lit_eq. destruct (step_root repaired (st_next st) (st_root st) o). reflexivity. Qed.
-
-Lemma step_next : forall q st o, st_next (fst (step q st o)) = S (st_next st).
-Proof. intros. unfold step. destruct (step_root_lit q (st_next st) (st_root st) o). reflexivity. Qed.
-
-Lemma run_next : forall q ops st, st_next (run q st ops) = (List.length ops + st_next st)%nat.
-Proof.
-  induction ops as [|o r IH]; simpl; intros st; [reflexivity|].
-  rewrite IH, step_next. lia.
-Qed.
-
-Lemma run_app : forall q a b st, run q st (a ++ b) = run q (run q st a) b.
-Proof. induction a as [|o r IH]; simpl; intros; [reflexivity | apply IH]. Qed.
-
-(* T3/T4, history form: a parameter that exists after the history and already
-   existed before it (its identity is below the next one to be handed out) was
-   there with the same key / priority / identity, read-only flag, constraint
-   and DEFAULT, and, when read-only, with the same VALUE. *)
-Theorem leaf_history : forall ops st h ro c d v',
-  In (Leaf h ro c d v') (nodes (st_root (run repaired st ops))) -> (h_id h < st_next st)%nat ->
-  exists v, In (Leaf h ro c d v) (nodes (st_root st)) /\ (ro = true -> v' = v).
-Proof.
-  induction ops as [|o r IH]; simpl; intros st h ro c d v' Hin Hid.
-  - exists v'. auto.
-  - apply IH in Hin; [|rewrite step_next; lia].
-    destruct Hin as (v1 & Hin & Hro). rewrite step_root_eq in Hin.
-    apply step_root_leaf_origin in Hin. destruct Hin as [(v & Hv & Hor)|[Hn _]]; [|lia].
-    exists v. split; [exact Hv|]. intros Ht. rewrite (Hro Ht). destruct Hor as [Hor|Hor]; [exact Hor | congruence].
-Qed.
-
-Theorem default_never_changes : forall ops1 ops2 h ro c d v',
-  let st1 := run repaired init ops1 in
-  In (Leaf h ro c d v') (nodes (st_root (run repaired st1 ops2))) -> (h_id h < st_next st1)%nat ->
-  exists v, In (Leaf h ro c d v) (nodes (st_root st1)).
-Proof.
-  intros ops1 ops2 h ro c d v' st1 Hin Hid. destruct (leaf_history ops2 st1 _ _ _ _ _ Hin Hid) as (v & Hv & _). eauto.
-Qed.
-
-Theorem read_only_never_changes : forall ops1 ops2 h c d v',
-  let st1 := run repaired init ops1 in
-  In (Leaf h true c d v') (nodes (st_root (run repaired st1 ops2))) -> (h_id h < st_next st1)%nat ->
-  In (Leaf h true c d v') (nodes (st_root st1)).
-Proof.
-  intros ops1 ops2 h c d v' st1 Hin Hid. destruct (leaf_history ops2 st1 _ _ _ _ _ Hin Hid) as (v & Hv & Hro).
-  rewrite (Hro eq_refl). exact Hv.
-Qed.
-
-(* ... hence a read-only parameter holds its default for ever *)
-Definition ro_at_default (root : param) : Prop :=
-  forall h c d v, In (Leaf h true c d v) (nodes root) -> v = d.
-
-Lemma step_ro_at_default : forall st o, ro_at_default (st_root st) -> ro_at_default (st_root (fst (step repaired st o))).
-Proof.
-  unfold ro_at_default. intros st o H h c d v Hin. rewrite step_root_eq in Hin.
-  apply step_root_leaf_origin in Hin. destruct Hin as [(v0 & Hv & [->|Hf])|[_ ->]]; [eauto | discriminate | reflexivity].
-Qed.
-
-Theorem read_only_value_is_default : forall ops h c d v,
-  In (Leaf h true c d v) (nodes (st_root (run repaired init ops))) -> v = d.
-Proof.
-  intros ops. change (ro_at_default (st_root (run repaired init ops))).
-  assert (G : forall ops st, ro_at_default (st_root st) -> ro_at_default (st_root (run repaired st ops))).
-  { induction ops0 as [|o r IH]; simpl; intros st H; [exact H | apply IH, step_ro_at_default, H]. }
-  apply G. unfold ro_at_default, init. simpl. intros h c d v [H|[]]. discriminate.
+  - auto.
+  - auto.
+  - auto.
 Qed.
 
 (* ================================================================== T5: addressing by dotted key *)
@@ -1027,7 +949,7 @@ Qed.
 
 Lemma wf_children_nodup : forall n h ch, wf n (Map h ch) -> NoDup (map pkey ch) /\ Forall key_ok (map pkey ch).
 Proof.
-  intros n h ch H. inversion H as [|? ? _ _ Hok]; subst. destruct Hok as (H1 & H2 & _).
+  intros n h ch H. inversion H as [|? ? _ _ _ Hok]; subst. destruct Hok as (H1 & H2 & _).
   rewrite <- map_pkey_phdr in *. auto.
 Qed.
 
@@ -1037,7 +959,7 @@ Proof.
   - simpl in Hin. destruct Hin as [Hin|[]]. inversion Hin; subst. simpl. auto.
   - apply paths_map_inv in Hin. destruct Hin as [[-> ->]|(c & l' & Hc & Hin & ->)]; [simpl; auto|].
     destruct (wf_children_nodup _ _ _ Hwf) as [Hnd Hk].
-    inversion Hwf as [|? ? _ Hch _]; subst. rewrite Forall_forall in IH, Hch.
+    inversion Hwf as [|? ? _ _ Hch _]; subst. rewrite Forall_forall in IH, Hch.
     destruct (IH c Hc l' x (Hch c Hc) Hin) as [Hn Hl].
     simpl. rewrite (find_child_nodup ch c Hnd Hc). split; [exact Hn|].
     constructor; [|exact Hl]. rewrite Forall_forall in Hk. apply Hk, in_map, Hc.
@@ -1115,7 +1037,7 @@ Proof.
   destruct p as [|h ch]; [discriminate|]. simpl in Hn.
   destruct (find_child k ch) as [c|] eqn:Ec; [|discriminate].
   destruct (wf_children_nodup _ _ _ Hwf) as [Hnd _].
-  inversion Hwf as [|? ? _ Hch _]; subst.
+  inversion Hwf as [|? ? _ _ Hch _]; subst.
   assert (Hc : wf n c) by (rewrite Forall_forall in Hch; apply Hch; eapply find_child_in; eauto).
   assert (Hkc : pkey c = k) by (eapply find_child_key; eauto).
   destruct r as [|k2 r2].
@@ -1195,18 +1117,6 @@ Proof.
 Qed.
 
 (* ================================================================== T8: order of children *)
-(* global: in every reachable tree every map lists its children by display
-   priority, ties in creation = insertion order, under distinct well-formed keys *)
-Theorem children_sorted : forall ops h ch,
-  In (Map h ch) (nodes (st_root (run repaired init ops))) ->
-  StronglySorted hord_lt (map phdr ch) /\ NoDup (map pkey ch) /\ Forall key_ok (map pkey ch).
-Proof.
-  intros ops h ch Hin.
-  pose proof (wf_nodes _ _ (run_wf ops init init_wf) _ Hin) as Hwf.
-  destruct (wf_children_nodup _ _ _ Hwf). inversion Hwf as [|? ? _ _ Hok]; subst.
-  destruct Hok as (_ & _ & Hs). auto.
-Qed.
-
 (* local: add() puts the new parameter behind every child whose priority is
    <= its own and before the others, and leaves the others as they were *)
 Theorem add_is_stable_insertion : forall p h ch x',
@@ -1479,40 +1389,498 @@ Proof.
     - simpl in Hn. destruct Hn as [Hn|[]]. inversion Hn; subst. simpl. auto.
     - apply paths_map_inv in Hn. destruct Hn as [[_ ->]|(c & l' & Hc & Hn & _)]; [apply nodes_self|].
       rewrite Forall_forall in IH. eapply nodes_child; eauto. }
-  pose proof (wf_nodes _ _ Hwf _ Hin) as Hw. inversion Hw as [|? ? _ _ Hok]; subst.
+  pose proof (wf_nodes _ _ Hwf _ Hin) as Hw. inversion Hw as [|? ? _ _ _ Hok]; subst.
   apply sorted_hord_prio. apply Hok.
 Qed.
 
 Lemma nodup_app_r : forall (A : Type) (a b : list A), NoDup (a ++ b) -> NoDup b.
 Proof. induction a as [|x a IH]; simpl; intros b H; [exact H | inversion H; auto]. Qed.
 
-Lemma step_root_ids : forall n root o,
-  wf n root -> NoDup (ids root) -> NoDup (ids (fst (step_root repaired n root o))).
+(* ================================================================== the forest: the model's tree and the parent-less objects *)
+Definition trees (st : state) : list param := st_root st :: st_free st.
+Definition all_nodes (st : state) : list param := flat_map nodes (trees st).
+
+Lemma step_with_ext : forall ts ts' c c' a a',
+  (forall n T o, ts n T o = ts' n T o) -> (forall n s, c n s = c' n s) -> (forall d t T, a d t T = a' d t T) ->
+  forall st o, step_with ts c a st o = step_with ts' c' a' st o.
 Proof.
-  intros n root o Hwf Hnd.
-  assert (Hset : forall path v r', modify (segments path) (set_value repaired v) root = Val r' -> NoDup (ids r')).
+  intros ts ts' c c' a a' H1 H2 H3 st o. unfold step_with.
+  destruct (split_target o) as [tg o'].
+  destruct (get_target (st_root st) (st_free st) tg) as [T|]; [|reflexivity].
+  destruct o'; rewrite ?H1, ?H2; try reflexivity.
+  destruct (find_free i (st_free st)); [|reflexivity]. rewrite H3. reflexivity.
+Qed.
+
+Lemma attach_lit_eq : forall d t T, attach_lit d t T = attach_seg d t T.
+Proof. intros. apply py_modify_at_eq. Qed.
+
+(* the forest step over the walk-over-segments functions *)
+Lemma step_seg : forall st o,
+  step repaired st o = step_with (step_root repaired) (ctor_free repaired) attach_seg st o.
+Proof.
+  intros. unfold step. apply step_with_ext; [intros; apply step_root_lit_eq | reflexivity | apply attach_lit_eq].
+Qed.
+
+Lemma find_free_split : forall j T T' l, find_free j l = Some T ->
+  pid T = j /\ exists l1 l2, l = l1 ++ T :: l2 /\ replace_free j T' l = l1 ++ T' :: l2 /\ remove_free j l = l1 ++ l2.
+Proof.
+  induction l as [|x r IH]; simpl; intros H; [discriminate|].
+  destruct (Nat.eqb (pid x) j) eqn:E.
+  - inversion H; subst. apply Nat.eqb_eq in E. split; [exact E|]. exists [], r. auto.
+  - destruct (IH H) as (Hp & l1 & l2 & -> & -> & ->). split; [exact Hp|]. exists (x :: l1), l2. auto.
+Qed.
+
+Lemma find_free_remove_other : forall i j l, i <> j -> find_free j (remove_free i l) = find_free j l.
+Proof.
+  induction l as [|x r IH]; simpl; intros Hne; [reflexivity|].
+  destruct (Nat.eqb (pid x) i) eqn:Ei; simpl.
+  - apply Nat.eqb_eq in Ei. destruct (Nat.eqb (pid x) j) eqn:Ej; [apply Nat.eqb_eq in Ej; lia | reflexivity].
+  - destruct (Nat.eqb (pid x) j); [reflexivity | apply IH, Hne].
+Qed.
+
+(* one tree of the forest is exchanged *)
+Lemma set_target_split : forall root free tg T T' root' free',
+  get_target root free tg = Some T -> set_target root free tg T' = (root', free') ->
+  exists l1 l2, root :: free = l1 ++ T :: l2 /\ root' :: free' = l1 ++ T' :: l2.
+Proof.
+  intros root free [j|] T T' root' free' Hg Hs; simpl in *.
+  - inversion Hs; subst. destruct (find_free_split j T T' free Hg) as (_ & l1 & l2 & -> & -> & _).
+    exists (root' :: l1), l2. auto.
+  - inversion Hg; inversion Hs; subst. exists [], free'. auto.
+Qed.
+
+Lemma set_target_free : forall (P : param -> Prop) root free tg T' root' free',
+  set_target root free tg T' = (root', free') -> Forall P free -> P T' -> Forall P free'.
+Proof.
+  intros P root free [j|] T' root' free' Hs HF HT; simpl in Hs; inversion Hs; subst; [|exact HF].
+  clear Hs. induction free as [|x r IH]; simpl; [constructor|].
+  inversion HF; subst. destruct (Nat.eqb (pid x) j); constructor; auto.
+Qed.
+
+Lemma set_target_same : forall root free tg T,
+  get_target root free tg = Some T -> set_target root free tg T = (root, free).
+Proof.
+  intros root free [j|] T Hg; simpl in *; [|inversion Hg; reflexivity].
+  f_equal. induction free as [|x r IH]; simpl in *; [reflexivity|].
+  destruct (Nat.eqb (pid x) j); [inversion Hg; reflexivity | rewrite IH; auto].
+Qed.
+
+Lemma In_remove_free : forall i l x, In x (remove_free i l) -> In x l.
+Proof.
+  induction l as [|y r IH]; simpl; intros x H; [tauto|].
+  destruct (Nat.eqb (pid y) i); [auto | destruct H; auto].
+Qed.
+
+Lemma Forall_remove_free : forall (P : param -> Prop) i l, Forall P l -> Forall P (remove_free i l).
+Proof.
+  intros P i l H. apply Forall_forall. intros x Hx. apply In_remove_free in Hx. rewrite Forall_forall in H. auto.
+Qed.
+
+Lemma find_free_in : forall i l t, find_free i l = Some t -> In t l.
+Proof.
+  induction l as [|y r IH]; simpl; intros t H; [discriminate|].
+  destruct (Nat.eqb (pid y) i); [inversion H; auto | right; apply IH, H].
+Qed.
+
+(* what one forest operation can do *)
+Inductive trans (n : nat) (root : param) (free : list param) : param -> list param -> out -> Prop :=
+| tr_same : forall r, trans n root free root free r
+| tr_new : forall s, ctor_checks repaired s None = None -> trans n root free root (free ++ [node_of n s]) ONone
+| tr_tree : forall tg T o' root' free',
+    get_target root free tg = Some T ->
+    set_target root free tg (fst (step_root repaired n T o')) = (root', free') ->
+    trans n root free root' free' (snd (step_root repaired n T o'))
+| tr_attach : forall tg T i t dst T' root' free',
+    find_free i free = Some t -> tg <> Some i ->
+    get_target root (remove_free i free) tg = Some T ->
+    modify (psegs dst) (map_add (restamp n t)) T = Val T' ->
+    set_target root (remove_free i free) tg T' = (root', free') ->
+    trans n root free root' free' ONone.
+
+Lemma step_trans : forall st o,
+  st_next (fst (step repaired st o)) = S (st_next st) /\
+  trans (st_next st) (st_root st) (st_free st)
+        (st_root (fst (step repaired st o))) (st_free (fst (step repaired st o))) (snd (step repaired st o)).
+Proof.
+  intros [root n free] o. rewrite step_seg. unfold step_with. cbn [st_root st_next st_free].
+  destruct (split_target o) as [tg o'] eqn:Es.
+  destruct (get_target root free tg) as [T|] eqn:Eg; [|split; [reflexivity | apply tr_same]].
+  assert (Htree : forall o'',
+            (let '(T', r) := step_root repaired n T o'' in
+             let '(root', free') := set_target root free tg T' in (mkState root' (S n) free', r)) =
+            (let '(T', r) := step_root repaired n T o'' in
+             let '(root', free') := set_target root free tg T' in (mkState root' (S n) free', r)) ->
+            st_next (fst (let '(T', r) := step_root repaired n T o'' in
+                          let '(root', free') := set_target root free tg T' in (mkState root' (S n) free', r))) = S n /\
+            trans n root free
+              (st_root (fst (let '(T', r) := step_root repaired n T o'' in
+                             let '(root', free') := set_target root free tg T' in (mkState root' (S n) free', r))))
+              (st_free (fst (let '(T', r) := step_root repaired n T o'' in
+                             let '(root', free') := set_target root free tg T' in (mkState root' (S n) free', r))))
+              (snd (let '(T', r) := step_root repaired n T o'' in
+                    let '(root', free') := set_target root free tg T' in (mkState root' (S n) free', r)))).
+  { intros o'' _. pose proof (tr_tree n root free tg T o'') as Ht.
+    destruct (step_root repaired n T o'') as [T' r] eqn:Est. simpl in Ht.
+    destruct (set_target root free tg T') as [root' free'] eqn:Eset. simpl.
+    split; [reflexivity | apply (Ht root' free' Eg eq_refl)]. }
+  destruct o' as [path v|pp s|pp s|path|path|path v|path|src dst|path|s|i o''|i dst];
+    try (apply Htree; reflexivity).
+  - (* ONew *)
+    destruct tg as [j|]; [split; [reflexivity | apply tr_same]|].
+    unfold ctor_free. destruct (ctor_checks repaired s None) eqn:Ec; simpl;
+      (split; [reflexivity|]); [apply tr_same | apply tr_new, Ec].
+  - split; [reflexivity | apply tr_same].
+  - (* OAttach *)
+    destruct (find_free i free) as [t|] eqn:Ef; [|split; [reflexivity | apply tr_same]].
+    destruct (match tg with Some j => Nat.eqb i j | None => false end) eqn:Eself;
+      [split; [reflexivity | apply tr_same]|].
+    unfold attach_seg.
+    destruct (modify (psegs dst) (map_add (restamp n t)) T) as [T'|e] eqn:Em;
+      [|split; [reflexivity | apply tr_same]].
+    destruct (set_target root (remove_free i free) tg T') as [root' free'] eqn:Eset. simpl.
+    split; [reflexivity|].
+    assert (Hne : tg <> Some i).
+    { destruct tg as [j|]; [|discriminate]. intro H. inversion H; subst. rewrite Nat.eqb_refl in Eself. discriminate. }
+    eapply tr_attach; eauto.
+    destruct tg as [j|]; simpl in *; [|exact Eg].
+    rewrite find_free_remove_other; [exact Eg | congruence].
+Qed.
+
+(* ------------------------------------------------------------------ T1 on the forest *)
+Definition wf_state (st : state) : Prop :=
+  Forall (wf (st_next st)) (trees st) /\ Forall (fun t => key_ok (pkey t)) (st_free st).
+
+Lemma Forall_mid : forall (P : param -> Prop) l1 T T' l2,
+  Forall P (l1 ++ T :: l2) -> P T' -> Forall P (l1 ++ T' :: l2).
+Proof.
+  intros P l1 T T' l2 H HT. apply Forall_app in H. destruct H as [H1 H2]. inversion H2; subst.
+  apply Forall_app. split; [exact H1 | constructor; assumption].
+Qed.
+
+Lemma Forall_mid_at : forall (P : param -> Prop) l1 T l2, Forall P (l1 ++ T :: l2) -> P T.
+Proof. intros P l1 T l2 H. apply Forall_app in H. destruct H as [_ H]. inversion H; assumption. Qed.
+
+Lemma restamp_wf : forall n t, wf n t -> wf (S n) (restamp n t).
+Proof.
+  intros n t H. inversion H; subst; simpl; constructor; simpl; auto; try lia.
+  eapply Forall_impl; [|eassumption]. intros y Hy. eapply wf_mono; [|exact Hy]. lia.
+Qed.
+
+Lemma restamp_key : forall n t, pkey (restamp n t) = pkey t.
+Proof. intros n [h ro c d v|h ch]; reflexivity. Qed.
+
+Lemma restamp_id : forall n t, pid (restamp n t) = pid t.
+Proof. intros n [h ro c d v|h ch]; reflexivity. Qed.
+
+Lemma restamp_seq : forall n t, pseq (restamp n t) = n.
+Proof. intros n [h ro c d v|h ch]; reflexivity. Qed.
+
+Lemma trans_wf : forall n root free root' free' r,
+  Forall (wf n) (root :: free) -> Forall (fun t => key_ok (pkey t)) free ->
+  trans n root free root' free' r ->
+  Forall (wf (S n)) (root' :: free') /\ Forall (fun t => key_ok (pkey t)) free'.
+Proof.
+  intros n root free root' free' r Hwf Hk Ht.
+  assert (Hmono : forall l, Forall (wf n) l -> Forall (wf (S n)) l).
+  { intros l Hl. eapply Forall_impl; [|exact Hl]. intros y Hy. eapply wf_mono; [|exact Hy]. lia. }
+  inversion Ht; subst.
+  - split; [apply Hmono, Hwf | exact Hk].
+  - apply ctor_checks_repaired_none in H. destruct H as (_ & Hd & Hb).
+    split.
+    + change (root' :: free ++ [node_of n s]) with ((root' :: free) ++ [node_of n s]).
+      apply Forall_app. split; [apply Hmono, Hwf|]. constructor; [|constructor].
+      apply node_of_wf, default_checks_leaf_ok, Hd.
+    + apply Forall_app. split; [exact Hk|]. constructor; [|constructor].
+      rewrite node_of_key. eapply base_checks_key_ok, Hb.
+  - destruct (set_target_split _ _ _ _ _ _ _ H H0) as (l1 & l2 & E1 & E2).
+    rewrite E1 in Hwf. pose proof (Forall_mid_at _ _ _ _ Hwf) as HT.
+    destruct (step_root_wf_hdr n T o' HT) as [HT' Hh].
+    split.
+    + rewrite E2. eapply Forall_mid; [apply Hmono, Hwf | exact HT'].
+    + destruct tg as [j|]; simpl in H, H0.
+      * inversion H0; subst. eapply (set_target_free _ root' free (Some j)); [reflexivity | exact Hk|].
+        unfold pkey. rewrite Hh. apply find_free_in in H. rewrite Forall_forall in Hk. apply (Hk _ H).
+      * inversion H0; subst. exact Hk.
+  - (* attach *)
+    assert (Hwf0 : Forall (wf n) (root :: remove_free i free)).
+    { inversion Hwf; subst. constructor; [assumption | apply Forall_remove_free; assumption]. }
+    assert (Hk0 : Forall (fun t => key_ok (pkey t)) (remove_free i free)) by (apply Forall_remove_free, Hk).
+    assert (Ht0 : wf n t /\ key_ok (pkey t)).
+    { apply find_free_in in H. inversion Hwf; subst. rewrite Forall_forall in *. auto. }
+    destruct (set_target_split _ _ _ _ _ _ _ H1 H3) as (l1 & l2 & E1 & E2).
+    rewrite E1 in Hwf0. pose proof (Forall_mid_at _ _ _ _ Hwf0) as HT.
+    assert (HT' : wf (S n) T' /\ phdr T' = phdr T).
+    { eapply modify_wf; [| exact HT | | exact H2]; [lia|].
+      intros x x' Hx Ha. eapply map_add_wf_gen; eauto.
+      - apply restamp_wf, Ht0.
+      - rewrite restamp_key. apply Ht0.
+      - apply restamp_seq. }
+    destruct HT' as [HT' Hh].
+    split.
+    + rewrite E2. eapply Forall_mid; [apply Hmono, Hwf0 | exact HT'].
+    + destruct tg as [j|]; simpl in H1, H3.
+      * inversion H3; subst. eapply (set_target_free _ root' (remove_free i free) (Some j)); [reflexivity | exact Hk0|].
+        unfold pkey. rewrite Hh. apply find_free_in in H1. rewrite Forall_forall in Hk0. apply (Hk0 _ H1).
+      * inversion H3; subst. exact Hk0.
+Qed.
+
+Lemma step_next : forall st o, st_next (fst (step repaired st o)) = S (st_next st).
+Proof. intros. apply step_trans. Qed.
+
+Lemma step_wf : forall st o, wf_state st -> wf_state (fst (step repaired st o)).
+Proof.
+  intros st o [H1 H2]. destruct (step_trans st o) as [Hn Ht]. unfold wf_state, trees. rewrite Hn.
+  eapply trans_wf; eauto.
+Qed.
+
+Lemma run_wf : forall ops st, wf_state st -> wf_state (run repaired st ops).
+Proof. induction ops as [|o r IH]; simpl; intros st H; [exact H | apply IH, step_wf, H]. Qed.
+
+Lemma init_wf : wf_state init.
+Proof.
+  unfold wf_state, trees, init. simpl. split; [|constructor].
+  constructor; [|constructor]. constructor; simpl; [lia | lia | constructor | apply children_ok_nil].
+Qed.
+
+Lemma run_next : forall ops st, st_next (run repaired st ops) = (List.length ops + st_next st)%nat.
+Proof.
+  induction ops as [|o r IH]; simpl; intros st; [reflexivity|].
+  rewrite IH, step_next. lia.
+Qed.
+
+Lemma run_app : forall q a b st, run q st (a ++ b) = run q (run q st a) b.
+Proof. induction a as [|o r IH]; simpl; intros; [reflexivity | apply IH]. Qed.
+
+Lemma all_nodes_in : forall st x, In x (all_nodes st) <-> exists t, In t (trees st) /\ In x (nodes t).
+Proof. intros. unfold all_nodes. apply in_flat_map. Qed.
+
+Lemma wf_state_nodes : forall st x, wf_state st -> In x (all_nodes st) -> wf (st_next st) x.
+Proof.
+  intros st x [H _] Hx. apply all_nodes_in in Hx. destruct Hx as (t & Ht & Hx).
+  rewrite Forall_forall in H. eapply wf_nodes; eauto.
+Qed.
+
+(* T1: after every sequence of operations every tree of the forest - the
+   model's tree and every parent-less object under construction - is
+   well-formed; in particular every parameter holds a value (and a default)
+   that is valid for its declared type / bounds / options / quantity type. *)
+Theorem value_always_valid_from : forall st ops p,
+  wf_state st -> In p (all_nodes (run repaired st ops)) -> leaf_ok p.
+Proof. intros st ops p Hwf Hin. eapply wf_leaf_ok, wf_state_nodes; [apply run_wf, Hwf | exact Hin]. Qed.
+
+Theorem value_always_valid : forall ops p, In p (all_nodes (run repaired init ops)) -> leaf_ok p.
+Proof. intros ops p. apply value_always_valid_from, init_wf. Qed.
+
+(* T8 global: every map anywhere in the forest lists its children by display
+   priority, ties in insertion order, under distinct well-formed keys *)
+Theorem children_sorted : forall ops h ch,
+  In (Map h ch) (all_nodes (run repaired init ops)) ->
+  StronglySorted hord_lt (map phdr ch) /\ NoDup (map pkey ch) /\ Forall key_ok (map pkey ch).
+Proof.
+  intros ops h ch Hin.
+  pose proof (wf_state_nodes _ _ (run_wf ops init init_wf) Hin) as Hwf.
+  destruct (wf_children_nodup _ _ _ Hwf). inversion Hwf as [|? ? _ _ _ Hok]; subst.
+  destruct Hok as (_ & _ & Hs). auto.
+Qed.
+
+(* ------------------------------------------------------------------ T2 on the forest *)
+Lemma trans_rejected : forall n root free root' free' e,
+  trans n root free root' free' (ORaise e) -> root' = root /\ free' = free.
+Proof.
+  intros n root free root' free' e Ht. inversion Ht; subst; auto.
+  match goal with
+  | Hs : set_target _ _ _ (fst (step_root _ _ _ _)) = _, Hg : get_target _ _ _ = Some _,
+    Hr : snd (step_root _ _ _ _) = ORaise _ |- _ =>
+      apply rejected_unchanged_root in Hr; rewrite Hr in Hs;
+      rewrite (set_target_same _ _ _ _ Hg) in Hs; inversion Hs; auto
+  end.
+Qed.
+
+Theorem rejected_unchanged : forall st o e,
+  snd (step repaired st o) = ORaise e ->
+  st_root (fst (step repaired st o)) = st_root st /\ st_free (fst (step repaired st o)) = st_free st.
+Proof.
+  intros st o e H. destruct (step_trans st o) as [_ Ht]. rewrite H in Ht. eapply trans_rejected; eauto.
+Qed.
+
+(* ------------------------------------------------------------------ T3/T4 on the forest *)
+(* the same object: identity, key and priority (the insertion stamp changes when
+   a parent-less object is attached) *)
+Definition same_obj (a b : hdr) : Prop := h_id a = h_id b /\ h_key a = h_key b /\ h_prio a = h_prio b.
+
+Lemma same_obj_refl : forall a, same_obj a a.
+Proof. intros; repeat split. Qed.
+
+Lemma same_obj_trans : forall a b c, same_obj a b -> same_obj b c -> same_obj a c.
+Proof. unfold same_obj. intros a b c (H1 & H2 & H3) (H4 & H5 & H6). repeat split; congruence. Qed.
+
+Lemma nodes_restamp : forall n t L, In L (nodes (restamp n t)) -> L = restamp n t \/ In L (nodes t).
+Proof.
+  intros n [h ro c d v|h ch] L H; simpl in *.
+  - destruct H as [H|[]]; auto.
+  - destruct H as [H|H]; auto.
+Qed.
+
+Lemma in_mid : forall (A : Type) (x : A) l1 T l2, In x (l1 ++ T :: l2) -> x = T \/ In x (l1 ++ l2).
+Proof.
+  intros A x l1 T l2 H. apply in_app_or in H. destruct H as [H|[H|H]]; auto; right; apply in_or_app; auto.
+Qed.
+
+(* where a leaf of the forest after one operation comes from *)
+Lemma trans_leaf_origin : forall n root free root' free' r h ro c d v',
+  trans n root free root' free' r ->
+  In (Leaf h ro c d v') (flat_map nodes (root' :: free')) ->
+  (exists h0 v, In (Leaf h0 ro c d v) (flat_map nodes (root :: free)) /\ same_obj h0 h /\ (v' = v \/ ro = false)) \/
+  (h_id h = n /\ v' = d).
+Proof.
+  intros n root free root' free' r h ro c d v' Ht Hin.
+  assert (Hold : In (Leaf h ro c d v') (flat_map nodes (root :: free)) ->
+                 (exists h0 v, In (Leaf h0 ro c d v) (flat_map nodes (root :: free)) /\ same_obj h0 h /\ (v' = v \/ ro = false)) \/
+                 (h_id h = n /\ v' = d)).
+  { intros H. left. exists h, v'. split; [exact H|]. split; [apply same_obj_refl | auto]. }
+  inversion Ht; subst.
+  - auto.
+  - change (root' :: free ++ [node_of n s]) with ((root' :: free) ++ [node_of n s]) in Hin.
+    rewrite flat_map_app in Hin. apply in_app_or in Hin. destruct Hin as [Hin|Hin]; [auto|].
+    simpl in Hin. rewrite app_nil_r, node_of_nodes in Hin. destruct Hin as [Hin|[]].
+    right. unfold node_of in Hin. destruct (s_kind s); inversion Hin; subst; auto.
+  - match goal with
+    | Hg : get_target _ _ _ = Some _, Hs : set_target _ _ _ _ = _ |- _ =>
+        destruct (set_target_split _ _ _ _ _ _ _ Hg Hs) as (l1 & l2 & E1 & E2)
+    end.
+    rewrite E2 in Hin. rewrite E1. apply in_flat_map in Hin. destruct Hin as (t & Ht' & Hin).
+    apply in_mid in Ht'. destruct Ht' as [->|Ht'].
+    + apply step_root_leaf_origin in Hin. destruct Hin as [(v & Hv & Hor)|Hf]; [|auto].
+      left. exists h, v. split; [|split; [apply same_obj_refl | exact Hor]].
+      apply in_flat_map. exists T. split; [apply in_or_app; right; left; reflexivity | exact Hv].
+    + left. exists h, v'. split; [|split; [apply same_obj_refl | auto]].
+      apply in_flat_map. exists t. split; [|exact Hin].
+      apply in_app_or in Ht'. apply in_or_app. destruct Ht'; [left | right; right]; assumption.
+  - (* attach *)
+    match goal with
+    | Hf : find_free _ _ = Some _, Hg : get_target _ _ _ = Some _, Hs : set_target _ _ _ _ = _,
+      Hm : modify _ _ _ = Val _ |- _ =>
+        destruct (set_target_split _ _ _ _ _ _ _ Hg Hs) as (l1 & l2 & E1 & E2);
+        pose proof (find_free_in _ _ _ Hf) as Htin; rename Hm into Hmod
+    end.
+    assert (Hsub : forall x, In x (flat_map nodes (root :: remove_free i free)) -> In x (flat_map nodes (root :: free))).
+    { intros x Hx. apply in_flat_map in Hx. destruct Hx as (y & Hy & Hx). apply in_flat_map. exists y. split; [|exact Hx].
+      destruct Hy as [Hy|Hy]; [left; exact Hy | right; eapply In_remove_free, Hy]. }
+    rewrite E2 in Hin. apply in_flat_map in Hin. destruct Hin as (y & Hy & Hin).
+    apply in_mid in Hy. destruct Hy as [->|Hy].
+    + eapply (modify_leaves _ _ _ _ (Leaf h ro c d v')) in Hmod; [|exact I|exact Hin].
+      destruct Hmod as [Hm|(x & x' & Hx & Ha & Hx')].
+      * apply Hold, Hsub. rewrite E1. apply in_flat_map. exists T. split; [apply in_or_app; right; left; reflexivity | exact Hm].
+      * eapply (map_add_leaves _ _ _ (Leaf h ro c d v')) in Ha; [|exact I|exact Hx'].
+        destruct Ha as [Ha|Ha].
+        -- apply Hold, Hsub. rewrite E1. apply in_flat_map. exists T.
+           split; [apply in_or_app; right; left; reflexivity | eapply nodes_trans; eauto].
+        -- apply nodes_restamp in Ha. destruct Ha as [Ha|Ha].
+           ++ destruct t as [h0 ro0 c0 d0 v0|h0 ch0]; simpl in Ha; inversion Ha; subst.
+              left. exists h0, v0. split; [|split; [repeat split | auto]].
+              apply in_flat_map. exists (Leaf h0 ro0 c0 d0 v0). split; [right; exact Htin | simpl; auto].
+           ++ apply Hold. apply in_flat_map. exists t. split; [right; exact Htin | exact Ha].
+    + apply Hold, Hsub. rewrite E1. apply in_flat_map. exists y. split; [|exact Hin].
+      apply in_app_or in Hy. apply in_or_app. destruct Hy; [left | right; right]; assumption.
+Qed.
+
+Lemma step_leaf_origin : forall st o h ro c d v',
+  In (Leaf h ro c d v') (all_nodes (fst (step repaired st o))) ->
+  (exists h0 v, In (Leaf h0 ro c d v) (all_nodes st) /\ same_obj h0 h /\ (v' = v \/ ro = false)) \/
+  (h_id h = st_next st /\ v' = d).
+Proof.
+  intros st o h ro c d v' Hin. destruct (step_trans st o) as [_ Ht]. eapply trans_leaf_origin; eauto.
+Qed.
+
+(* T3/T4, history form: a parameter that exists after the history and already
+   existed before it (its identity is below the next one to be handed out) was
+   there as the same object with the same read-only flag, constraint and
+   DEFAULT, and, when read-only, with the same VALUE. *)
+Theorem leaf_history : forall ops st h ro c d v',
+  In (Leaf h ro c d v') (all_nodes (run repaired st ops)) -> (h_id h < st_next st)%nat ->
+  exists h0 v, In (Leaf h0 ro c d v) (all_nodes st) /\ same_obj h0 h /\ (ro = true -> v' = v).
+Proof.
+  induction ops as [|o r IH]; simpl; intros st h ro c d v' Hin Hid.
+  - exists h, v'. split; [exact Hin | split; [apply same_obj_refl | auto]].
+  - apply IH in Hin; [|rewrite step_next; lia].
+    destruct Hin as (h1 & v1 & Hin & Hso & Hro).
+    apply step_leaf_origin in Hin. destruct Hin as [(h0 & v & Hv & Hso' & Hor)|[Hn _]].
+    + exists h0, v. split; [exact Hv|]. split; [eapply same_obj_trans; eauto|].
+      intros Ht. rewrite (Hro Ht). destruct Hor as [Hor|Hor]; [exact Hor | congruence].
+    + destruct Hso as (Hi & _). lia.
+Qed.
+
+Theorem default_never_changes : forall ops1 ops2 h ro c d v',
+  let st1 := run repaired init ops1 in
+  In (Leaf h ro c d v') (all_nodes (run repaired st1 ops2)) -> (h_id h < st_next st1)%nat ->
+  exists h0 v, In (Leaf h0 ro c d v) (all_nodes st1) /\ same_obj h0 h.
+Proof.
+  intros ops1 ops2 h ro c d v' st1 Hin Hid.
+  destruct (leaf_history ops2 st1 _ _ _ _ _ Hin Hid) as (h0 & v & Hv & Hs & _). eauto.
+Qed.
+
+Theorem read_only_never_changes : forall ops1 ops2 h c d v',
+  let st1 := run repaired init ops1 in
+  In (Leaf h true c d v') (all_nodes (run repaired st1 ops2)) -> (h_id h < st_next st1)%nat ->
+  exists h0, In (Leaf h0 true c d v') (all_nodes st1) /\ same_obj h0 h.
+Proof.
+  intros ops1 ops2 h c d v' st1 Hin Hid.
+  destruct (leaf_history ops2 st1 _ _ _ _ _ Hin Hid) as (h0 & v & Hv & Hs & Hro).
+  rewrite (Hro eq_refl). eauto.
+Qed.
+
+(* ... hence a read-only parameter holds its default for ever *)
+Definition ro_at_default (st : state) : Prop :=
+  forall h c d v, In (Leaf h true c d v) (all_nodes st) -> v = d.
+
+Lemma step_ro_at_default : forall st o, ro_at_default st -> ro_at_default (fst (step repaired st o)).
+Proof.
+  unfold ro_at_default. intros st o H h c d v Hin.
+  apply step_leaf_origin in Hin. destruct Hin as [(h0 & v0 & Hv & _ & [->|Hf])|[_ ->]]; [eauto | discriminate | reflexivity].
+Qed.
+
+Theorem read_only_value_is_default : forall ops h c d v,
+  In (Leaf h true c d v) (all_nodes (run repaired init ops)) -> v = d.
+Proof.
+  intros ops. change (ro_at_default (run repaired init ops)).
+  assert (G : forall ops st, ro_at_default st -> ro_at_default (run repaired st ops)).
+  { induction ops0 as [|o r IH]; simpl; intros st H; [exact H | apply IH, step_ro_at_default, H]. }
+  apply G. unfold ro_at_default, all_nodes, trees, init. simpl. intros h c d v [H|[]]. discriminate.
+Qed.
+
+(* ------------------------------------------------------------------ identities are unique in the whole forest *)
+Definition all_ids (st : state) : list nat := flat_map ids (trees st).
+
+Lemma map_add_ids_gen : forall p x x', map_add p x = Val x' -> Permutation (ids x') (ids p ++ ids x).
+Proof.
+  intros p x x' H. destruct x as [|h ch]; simpl in H; [discriminate|].
+  destruct (has_key (pkey p) ch); [discriminate|]. inversion H; subst.
+  rewrite !ids_map.
+  assert (Hp : Permutation (py_sorted (ch ++ [p])) (p :: ch)).
+  { eapply perm_trans; [apply (proj1 (py_sorted_is_stable_sort _))|]. apply Permutation_sym, Permutation_cons_append. }
+  eapply perm_trans; [apply perm_skip, (Permutation_flat_map ids Hp)|].
+  simpl. apply Permutation_middle.
+Qed.
+
+Lemma ids_restamp : forall n t, ids (restamp n t) = ids t.
+Proof. intros n [h ro c d v|h ch]; reflexivity. Qed.
+
+(* identities after one tree operation: those before and the new one, minus what was removed *)
+Lemma step_root_ids_perm : forall n root o,
+  exists l, Permutation (ids root ++ [n]) (ids (fst (step_root repaired n root o)) ++ l).
+Proof.
+  intros n root o.
+  assert (Hsame : exists l, Permutation (ids root ++ [n]) (ids root ++ l)) by (exists [n]; apply Permutation_refl).
+  assert (Hset : forall path v r', modify (segments path) (set_value repaired v) root = Val r' ->
+                 exists l, Permutation (ids root ++ [n]) (ids r' ++ l)).
   { intros path v r' E. eapply modify_ids in E; [|intros x x'; apply set_value_ids].
-    eapply Permutation_NoDup; [apply Permutation_sym, E | exact Hnd]. }
-  assert (Hadd : forall pp s r', modify (psegs pp) (map_add (node_of n s)) root = Val r' -> NoDup (ids r')).
-  { intros pp s r' E.
-    assert (E' := E). apply modify_inv in E'; [|intros x x' Hx; destruct x; simpl in Hx; [discriminate|];
-                                                 destruct (has_key _ _); [discriminate|]; inversion Hx; reflexivity].
-    destruct E' as (_ & x & x' & Hn & Hx & _).
-    assert (Hsorted : StronglySorted prio_le (match x with Map _ ch => ch | _ => [] end)).
-    { destruct x as [|h ch]; [constructor|]. eapply node_children_sorted; eauto. }
-    clear Hx.
-    assert (Hperm : Permutation (ids r') ([n] ++ ids root)).
-    { eapply modify_ids; [|exact E]. intros y y' Hy.
-      destruct y as [|hy chy]; simpl in Hy; [discriminate|].
-      destruct (has_key (pkey (node_of n s)) chy) eqn:Eh; [discriminate|]. inversion Hy; subst.
-      rewrite !ids_map. simpl.
-      assert (Hp : Permutation (py_sorted (chy ++ [node_of n s])) (node_of n s :: chy)).
-      { eapply perm_trans; [apply (proj1 (py_sorted_is_stable_sort _))|]. apply Permutation_sym, Permutation_cons_append. }
-      eapply perm_trans; [apply perm_skip, (Permutation_flat_map ids Hp)|].
-      simpl. unfold ids at 1. rewrite node_of_nodes. simpl. rewrite node_of_id. apply perm_swap. }
-    eapply Permutation_NoDup; [apply Permutation_sym, Hperm|]. simpl. constructor; [|exact Hnd].
-    intro Hin. pose proof (wf_ids_below _ _ Hwf) as Hb. rewrite Forall_forall in Hb. specialize (Hb _ Hin). lia. }
-  destruct o as [path v|pp s|pp s|path|path|path v|path|src dst|path]; simpl.
+    exists [n]. apply Permutation_app_tail, Permutation_sym, E. }
+  assert (Hadd : forall pp s r', modify (psegs pp) (map_add (node_of n s)) root = Val r' ->
+                 exists l, Permutation (ids root ++ [n]) (ids r' ++ l)).
+  { intros pp s r' E. eapply (modify_ids (ids (node_of n s))) in E; [|intros x x'; apply map_add_ids_gen].
+    exists []. rewrite app_nil_r. eapply perm_trans; [|apply Permutation_sym, E].
+    unfold ids at 2. rewrite node_of_nodes. simpl. rewrite node_of_id. apply Permutation_sym, Permutation_cons_append. }
+  destruct o as [path v|pp s|pp s|path|path|path v|path|src dst|path|s|i o'|i dst]; simpl; auto.
   - destruct (modify (segments path) (set_value repaired v) root) as [r'|e] eqn:E; simpl; eauto.
   - destruct (node_at root (psegs pp)) as [par|]; simpl; auto.
     destruct (ctor_checks repaired s (Some par)); simpl; auto.
@@ -1521,8 +1889,9 @@ Proof.
     destruct (ctor_checks repaired s None); simpl; auto.
     destruct (modify (psegs pp) (map_add (node_of n s)) root) as [r'|e] eqn:E; simpl; eauto.
   - destruct (remove_at (segments path) root) as [[r' x]|e] eqn:E; simpl; auto.
-    apply remove_at_ids in E. eapply Permutation_NoDup in E; [|exact Hnd].
-    apply nodup_app_r in E. exact E.
+    apply remove_at_ids in E. exists (ids x ++ [n]).
+    eapply perm_trans; [apply Permutation_app_tail, E|].
+    rewrite <- app_assoc. apply Permutation_app_swap_app.
   - destruct (get root path) as [p|e]; simpl; auto.
   - destruct (modify (segments path) (set_value repaired v) root) as [r'|e] eqn:E; simpl; eauto.
   - destruct (get root path) as [[? ? ? ? ?|? ?]|e]; simpl; auto.
@@ -1532,11 +1901,141 @@ Proof.
   - destruct (get root path) as [[? ? ? ? ?|? ?]|e]; simpl; auto.
 Qed.
 
-Theorem ids_unique : forall ops, NoDup (map pid (nodes (st_root (run repaired init ops)))).
+Lemma flat_map_mid : forall (f : param -> list nat) l1 T l2,
+  flat_map f (l1 ++ T :: l2) = flat_map f l1 ++ f T ++ flat_map f l2.
+Proof. intros. rewrite flat_map_app. reflexivity. Qed.
+
+(* exchanging one tree: the leftovers carry over *)
+Lemma perm_mid : forall (a a' : list nat) x y l1 l2,
+  Permutation (a ++ x) (a' ++ y) -> Permutation ((l1 ++ a ++ l2) ++ x) ((l1 ++ a' ++ l2) ++ y).
 Proof.
-  intros ops. change (NoDup (ids (st_root (run repaired init ops)))).
-  assert (G : forall ops st, wf_state st -> NoDup (ids (st_root st)) -> NoDup (ids (st_root (run repaired st ops)))).
+  intros a a' x y l1 l2 H.
+  assert (E : forall b z, Permutation ((l1 ++ b ++ l2) ++ z) ((b ++ z) ++ l1 ++ l2)).
+  { intros b z. rewrite <- !app_assoc. eapply perm_trans; [apply Permutation_app_swap_app|].
+    apply Permutation_app_head. rewrite (app_assoc l1 l2 z). apply Permutation_app_comm. }
+  eapply perm_trans; [apply E|]. eapply perm_trans; [|apply Permutation_sym, E].
+  apply Permutation_app_tail, H.
+Qed.
+
+Lemma trans_ids : forall n root free root' free' r,
+  trans n root free root' free' r ->
+  exists l, Permutation (flat_map ids (root :: free) ++ [n]) (flat_map ids (root' :: free') ++ l).
+Proof.
+  intros n root free root' free' r Ht. inversion Ht; subst.
+  - exists [n]. apply Permutation_refl.
+  - exists []. rewrite app_nil_r.
+    change (root' :: free ++ [node_of n s]) with ((root' :: free) ++ [node_of n s]).
+    rewrite flat_map_app. apply Permutation_app_head. simpl. rewrite app_nil_r.
+    unfold ids. rewrite node_of_nodes. simpl. rewrite node_of_id. apply Permutation_refl.
+  - match goal with
+    | Hg : get_target _ _ _ = Some _, Hs : set_target _ _ _ _ = _ |- _ =>
+        destruct (set_target_split _ _ _ _ _ _ _ Hg Hs) as (l1 & l2 & E1 & E2)
+    end.
+    destruct (step_root_ids_perm n T o') as [l Hl]. exists l.
+    rewrite E1, E2, !flat_map_mid. apply perm_mid, Hl.
+  - match goal with
+    | Hf : find_free _ _ = Some _, Hg : get_target _ _ _ = Some _, Hs : set_target _ _ _ _ = _,
+      Hm : modify _ _ _ = Val _ |- _ =>
+        destruct (set_target_split _ _ _ _ _ _ _ Hg Hs) as (l1 & l2 & E1 & E2);
+        destruct (find_free_split i t t free Hf) as (_ & f1 & f2 & Ef & _ & Er); rename Hm into Hmod
+    end.
+    exists [n]. apply Permutation_app_tail.
+    eapply (modify_ids (ids t)) in Hmod;
+      [|intros x x' Hx; apply map_add_ids_gen in Hx; rewrite ids_restamp in Hx; exact Hx].
+    rewrite E2, flat_map_mid.
+    transitivity (ids t ++ flat_map ids (root :: remove_free i free)).
+    + rewrite Er, Ef. simpl. rewrite !flat_map_app. simpl.
+      eapply perm_trans; [apply Permutation_app_head, Permutation_app_swap_app|]. apply Permutation_app_swap_app.
+    + rewrite E1, flat_map_mid.
+      eapply perm_trans; [apply Permutation_app_swap_app|]. apply Permutation_app_head.
+      rewrite app_assoc. apply Permutation_app_tail. apply Permutation_sym, Hmod.
+Qed.
+
+Lemma wf_state_ids_below : forall st, wf_state st -> Forall (fun i => (i < st_next st)%nat) (all_ids st).
+Proof.
+  intros st [H _]. unfold all_ids. apply Forall_forall. intros i Hi. apply in_flat_map in Hi.
+  destruct Hi as (t & Ht & Hi). rewrite Forall_forall in H.
+  pose proof (wf_ids_below _ _ (H _ Ht)) as Hb. rewrite Forall_forall in Hb. auto.
+Qed.
+
+Lemma nodup_app_l : forall (A : Type) (a b : list A), NoDup (a ++ b) -> NoDup a.
+Proof.
+  induction a as [|x a IH]; simpl; intros b H; [constructor|].
+  inversion H; subst. constructor; [|eapply IH; eauto]. intro Hx. apply H2. apply in_or_app. auto.
+Qed.
+
+Lemma nodup_snoc : forall (A : Type) (a : list A) x, NoDup a -> ~ In x a -> NoDup (a ++ [x]).
+Proof.
+  intros A a x H Hx. eapply Permutation_NoDup; [apply Permutation_cons_append|]. constructor; assumption.
+Qed.
+
+Theorem ids_unique : forall ops, NoDup (map pid (all_nodes (run repaired init ops))).
+Proof.
+  assert (E : forall st, map pid (all_nodes st) = all_ids st).
+  { intros st. unfold all_nodes, all_ids, ids. rewrite flat_map_concat_map, concat_map, map_map, <- flat_map_concat_map. reflexivity. }
+  intros ops. rewrite E.
+  assert (G : forall ops st, wf_state st -> NoDup (all_ids st) -> NoDup (all_ids (run repaired st ops))).
   { induction ops0 as [|o r IH]; simpl; intros st Hwf Hnd; [exact Hnd|].
-    apply IH; [apply step_wf, Hwf|]. rewrite step_root_eq. apply step_root_ids; assumption. }
-  apply G; [apply init_wf|]. unfold ids, init. simpl. repeat constructor. simpl. tauto.
+    apply IH; [apply step_wf, Hwf|].
+    destruct (step_trans st o) as [_ Ht]. apply trans_ids in Ht. destruct Ht as [l Hl].
+    unfold all_ids, trees in *. eapply Permutation_NoDup in Hl.
+    - apply nodup_app_l in Hl. exact Hl.
+    - apply nodup_snoc; [exact Hnd|].
+      intros Hx. pose proof (wf_state_ids_below st Hwf) as Hb. unfold all_ids, trees in Hb.
+      rewrite Forall_forall in Hb. specialize (Hb _ Hx). lia. }
+  apply G; [apply init_wf|]. unfold all_ids, trees, ids, init. simpl. repeat constructor. simpl. tauto.
+Qed.
+
+(* ------------------------------------------------------------------ T12: bottom-up construction *)
+Lemma node_at_in_nodes : forall l p x, node_at p l = Some x -> In x (nodes p).
+Proof.
+  induction l as [|k r IH]; simpl; intros p x H.
+  - inversion H; subst. apply nodes_self.
+  - destruct p as [|h ch]; [discriminate|]. destruct (find_child k ch) as [c|] eqn:Ec; [|discriminate].
+    eapply nodes_child; [eapply find_child_in, Ec | apply IH, H].
+Qed.
+
+Lemma node_at_app : forall a b p, node_at p (a ++ b) = match node_at p a with Some y => node_at y b | None => None end.
+Proof.
+  induction a as [|k r IH]; simpl; intros b p; [reflexivity|].
+  destruct p as [|h ch]; [reflexivity|]. destruct (find_child k ch); [apply IH | reflexivity].
+Qed.
+
+Lemma node_at_restamp : forall n t l, l <> [] -> node_at (restamp n t) l = node_at t l.
+Proof. intros n [h ro c d v|h ch] [|k r] H; try congruence; reflexivity. Qed.
+
+(* A parent-less object (with everything built below it) that add() accepts
+   becomes a child of the addressed map: the tree stays well-formed, the object
+   is found under its key there, and everything below it is found under the
+   path through it - so (T5) the extended keys of all of them, now starting at
+   the root, resolve to them. *)
+Theorem attach_registers : forall n dst t T T',
+  wf n T -> wf n t -> key_ok (pkey t) ->
+  attach_seg dst (restamp n t) T = Val T' ->
+  wf (S n) T' /\ phdr T' = phdr T /\
+  node_at T' (psegs dst ++ [pkey t]) = Some (restamp n t) /\
+  forall l x, In (l, x) (paths t) -> l <> [] -> node_at T' (psegs dst ++ pkey t :: l) = Some x.
+Proof.
+  intros n dst t T T' HT Ht Hk H. unfold attach_seg in H.
+  assert (Hw : wf (S n) T' /\ phdr T' = phdr T).
+  { eapply modify_wf; [| exact HT | | exact H]; [lia|].
+    intros x x' Hx Ha. eapply (map_add_wf_gen n (restamp n t));
+      [exact Hx | apply restamp_wf, Ht | rewrite restamp_key; exact Hk | apply restamp_seq | exact Ha]. }
+  destruct Hw as [Hw Hh]. split; [exact Hw|]. split; [exact Hh|].
+  apply modify_inv in H.
+  2:{ intros x x' Hx. destruct x as [|h ch]; simpl in Hx; [discriminate|].
+      destruct (has_key _ _); [discriminate|]. inversion Hx; reflexivity. }
+  destruct H as (_ & x & x' & Hn & Ha & Hn').
+  destruct x as [|h ch]; simpl in Ha; [discriminate|].
+  destruct (has_key (pkey (restamp n t)) ch); [discriminate|]. inversion Ha; subst. clear Ha.
+  set (ch' := py_sorted (ch ++ [restamp n t])) in *.
+  assert (Hx' : wf (S n) (Map h ch')) by (eapply wf_nodes; [exact Hw | eapply node_at_in_nodes, Hn']).
+  assert (Hfind : find_child (pkey t) ch' = Some (restamp n t)).
+  { rewrite <- (restamp_key n t). apply find_child_nodup; [apply (wf_children_nodup _ _ _ Hx')|].
+    eapply Permutation_in; [apply Permutation_sym, (proj1 (py_sorted_is_stable_sort _))|].
+    apply in_or_app. right. left. reflexivity. }
+  split.
+  - rewrite node_at_app, Hn'. simpl. rewrite Hfind. reflexivity.
+  - intros l y Hin Hne. rewrite node_at_app, Hn'. simpl. rewrite Hfind.
+    rewrite node_at_restamp by exact Hne. eapply node_at_paths; eauto.
 Qed.
